@@ -245,23 +245,6 @@ func (f failure) String() string {
 	return fmt.Sprintf("%s: %s", f.kind, f.detail)
 }
 
-func sumInts(xs []int) int {
-	n := 0
-	for _, x := range xs {
-		n += x
-	}
-	return n
-}
-
-func hasNegative(xs []int) bool {
-	for _, x := range xs {
-		if x < 0 {
-			return true
-		}
-	}
-	return false
-}
-
 // caseClash reports whether rule i has a sibling (same db) whose table equals
 // its own when lower-cased but is spelled differently.
 func caseClash(ns *models.Namespace, i int) bool {
@@ -274,96 +257,23 @@ func caseClash(ns *models.Namespace, i int) bool {
 	return false
 }
 
-// clashOnName reports whether db has two rules whose tables both equal name
-// when lower-cased but are spelled differently.
-func clashOnName(ns *models.Namespace, db, name string) bool {
-	spellings := map[string]bool{}
-	for _, o := range ns.ShardRules {
-		if o.DB == db && strings.ToLower(o.Table) == strings.ToLower(name) {
-			spellings[o.Table] = true
-		}
-	}
-	return len(spellings) >= 2
-}
-
-func anyCaseClash(ns *models.Namespace) bool {
-	for i := range ns.ShardRules {
-		if caseClash(ns, i) {
-			return true
-		}
-	}
-	return false
-}
-
-func paddedSliceName(ns *models.Namespace) bool {
-	for _, s := range ns.Slices {
-		if strings.TrimSpace(s.Name) != s.Name {
-			return true
-		}
-	}
-	return false
-}
-
-// classify maps a failure to the id of the known finding whose root cause it
-// matches (narrowly), or "".
+// classify maps a failure to the id of the open finding whose root cause it
+// matches (narrowly), or "".  Only C10-F1 and C10-F4 are open; every other
+// failure - including a recurrence of a repaired defect - is a violation.
 func classify(ns *models.Namespace, f failure) string {
 	load := f.kind == "load_router" || f.kind == "load_namespace"
-	switch {
-	case load && ns.DefaultSlice == "" && strings.Contains(f.detail, "default slice[] not in the slice list"):
+	if load && ns.DefaultSlice == "" && strings.Contains(f.detail, "default slice[] not in the slice list") {
 		return "C10-F1"
-	case load && strings.Contains(f.detail, "duplicate") && strings.Contains(f.detail, "rule in") && anyCaseClash(ns):
-		return "C10-F3"
-	case (f.kind == "rule_replaced" || f.kind == "rule_missing" || f.kind == "linked") && f.rule >= 0 &&
-		(caseClash(ns, f.rule) || f.kind == "linked" && clashOnName(ns, ns.ShardRules[f.rule].DB, ns.ShardRules[f.rule].ParentTable)):
-		return "C10-F3"
-	case f.kind == "load_namespace" && paddedSliceName(ns) && (strings.Contains(f.detail, "not in the slice list") ||
-		strings.Contains(f.detail, "not in the namespace.slices list") || strings.Contains(f.detail, "duplicate slice [")):
-		return "C10-F7"
-	case f.kind == "load_namespace" && ns.DownAfterNoAlive < 0 && strings.Contains(f.detail, "downAfterNoAlive should be greater than 0"):
-		return "C10-F8"
-	case f.kind == "load_namespace" && strings.Contains(f.detail, "parse defaultPhyDBs error") && len(ns.DefaultPhyDBS) > 0:
-		for _, r := range ns.ShardRules {
-			if !isMycat(r.Type) && r.Type != models.ShardGlobal {
-				if _, ok := expandDatabases(r.Databases); !ok {
-					return "C10-F5"
-				}
-			}
-		}
 	}
-	if f.rule < 0 {
+	if f.rule < 0 || f.kind != "find_runtime_panic" {
 		return ""
 	}
 	r := ns.ShardRules[f.rule]
-	switch f.kind {
-	case "dup_index", "find_unlisted", "db_per_index":
-		if hasNegative(r.Locations) {
-			return "C10-F2"
-		}
-	case "empty_tables":
-		isDate := r.Type == models.ShardYear || r.Type == models.ShardMonth || r.Type == models.ShardDay
-		if !isDate && sumInts(r.Locations) <= 0 || isDate && len(r.DateRange) == 0 {
-			return "C10-F2"
-		}
-	case "find_runtime_panic":
-		if strings.Contains(f.detail, "divide by zero") && sumInts(r.Locations) <= 0 {
-			return "C10-F2"
-		}
-		if r.Type == models.ShardMycatPaddingMod && strings.Contains(f.detail, "slice bounds out of range") {
-			pl, e1 := strconv.Atoi(r.PadLength)
-			me, e2 := strconv.Atoi(r.ModEnd)
-			if e1 == nil && e2 == nil && pl < me {
-				return "C10-F4"
-			}
-		}
-	case "dup_physical":
-		if dbs, ok := expandDatabases(r.Databases); ok {
-			seen := map[string]bool{}
-			for _, d := range dbs {
-				if seen[d] {
-					return "C10-F6"
-				}
-				seen[d] = true
-			}
+	if r.Type == models.ShardMycatPaddingMod && strings.Contains(f.detail, "slice bounds out of range") {
+		pl, e1 := strconv.Atoi(r.PadLength)
+		me, e2 := strconv.Atoi(r.ModEnd)
+		if e1 == nil && e2 == nil && pl < me {
+			return "C10-F4"
 		}
 	}
 	return ""
@@ -715,6 +625,6 @@ func checkCase(c c10Case) (o pbt.Outcome) {
 
 func TestC10Configs(t *testing.T) {
 	pbt.Run(t, pbt.Spec{ID: "C10", Sub: "configs", Quick: 5000, Thorough: 30000,
-		Rule: "namespace configurations built valid field by field (1-4 slices, users, 0-5 rules of all 12 types + linked, database lists with prefix[a-b] ranges, calendar ranges incl. reversed spans and year ends, partition parameters) and, for half of them, 1-3 realistic edits (zero/negative/mismatched locations, case variants of table and parent names, bad database lists, overlapping dates, wrong partition sums, ...); non-trivial = accepted by Verify, >= 1 shard rule and >= 1 unusual feature (zero/negative location, upper-case or case-variant name, range syntax, reversed span, empty default slice, padded slice name)",
+		Rule:  "namespace configurations built valid field by field (1-4 slices, users, 0-5 rules of all 12 types + linked, database lists with prefix[a-b] ranges, calendar ranges incl. reversed spans and year ends, partition parameters) and, for half of them, 1-3 realistic edits (zero/negative/mismatched locations, case variants of table and parent names, bad database lists, overlapping dates, wrong partition sums, ...); non-trivial = accepted by Verify, >= 1 shard rule and >= 1 unusual feature (zero/negative location, upper-case or case-variant name, range syntax, reversed span, empty default slice, padded slice name)",
 		Floor: 0.25}, genCase, checkCase)
 }
